@@ -21,7 +21,7 @@ HERE = os.path.dirname(os.path.abspath(__file__))
 ROOT = os.path.dirname(HERE)
 sys.path.insert(0, ROOT)
 PY = sys.executable
-EVID = os.path.join(ROOT, 'evidence')
+EVID = os.environ.get('VERIF_EVIDENCE_DIR') or os.path.join(ROOT, 'evidence')
 REPLAYS = os.path.join(EVID, 'replays')
 FINDINGS = os.path.join(ROOT, 'KNOWN_FINDINGS.json')
 
@@ -50,6 +50,8 @@ def env_for(params, extra=None):
     env['PYTHONWARNINGS'] = 'ignore'
     env['PYTHONHASHSEED'] = '0'
     env['AZONER_PYX12_VERIF'] = '1'
+    if os.environ.get('VERIF_REPO'):
+        env['PYTHONPATH'] = os.environ['VERIF_REPO']
     if extra:
         env.update(extra)
     return env
